@@ -172,11 +172,18 @@ package volatility
 //@ ensures[C03] consumed(highs) == len(highs) && consumed(lows) == len(lows) && consumed(closings) == len(closings) && closed(result)
 //@ ensures[C04] forall kk :: 0 <= kk && kk < len(result) ==> hor(result, kk) <= max(hor(highs, kk + (p.IdlePeriod())), max(hor(lows, kk + (p.IdlePeriod())), hor(closings, kk + (p.IdlePeriod()))))
 
+// BasicUpperBands = (High + Low) / 2 + Multiplier * ATR, BasicLowerBands = (High + Low) / 2 - Multiplier * ATR,
+// FinalUpperBands / FinalLowerBands / SuperTrend / UpTrend by the documented recursion (spec functions stFU, stFL, stUP)
 //@ func SuperTrend.Compute
 //@ requires consumed(highs) == 0 && consumed(lows) == 0 && consumed(closings) == 0 && len(highs) == len(lows) && len(highs) == len(closings)
 //@ ensures[C02] len(result) == max(0, len(highs) - (s.IdlePeriod()))
 //@ ensures[C03] consumed(highs) == len(highs) && consumed(lows) == len(lows) && consumed(closings) == len(closings) && closed(result)
 //@ ensures[C04] forall kk :: 0 <= kk && kk < len(result) ==> hor(result, kk) <= max(hor(highs, kk + (s.IdlePeriod())), max(hor(lows, kk + (s.IdlePeriod())), hor(closings, kk + (s.IdlePeriod()))))
+//@ lit#0 invariant first == (calls == 0) && (calls == 0 ==> !upTrend)
+//@ lit#0 invariant calls > 0 ==> finalUpperBand == stFU(medians, atrMultiples, closingsSplice[1], calls - 1) && finalLowerBand == stFL(medians, atrMultiples, closingsSplice[1], calls - 1) && upTrend == stUP(medians, atrMultiples, closingsSplice[1], calls - 1) && previousClosing == closingsSplice[1][calls - 1]
+//@ lit#0 yields (stUP(medians, atrMultiples, closingsSplice[1], calls) ? stFU(medians, atrMultiples, closingsSplice[1], calls) : stFL(medians, atrMultiples, closingsSplice[1], calls))
+//@ guarantees[C01] "aligned-inputs" forall j :: 0 <= j && j < len(result) ==> medians[j] == (highs[j + s.Atr.IdlePeriod()] + lows[j + s.Atr.IdlePeriod()]) / 2 && atrMultiples[j] == res(Atr_Compute, 0)[j] * s.Multiplier && closingsSplice[1][j] == closings[j + s.Atr.IdlePeriod()]
+//@ guarantees[C01] "documented" forall k :: 0 <= k && k < len(result) ==> result[k] == (stUP(medians, atrMultiples, closingsSplice[1], k) ? stFU(medians, atrMultiples, closingsSplice[1], k) : stFL(medians, atrMultiples, closingsSplice[1], k))
 
 // Percentage Drawdown = 100 * ((Closings - High Closings) / High Closings), High Closings = Max(period, Closings);
 // Ulcer Index = Sqrt(Sma(period, Percent Drawdown * Percent Drawdown))   (documented)
